@@ -42,6 +42,9 @@ struct Sched {
     /// only at the four named points; drawn per run, swarm style, because the finer grain dilutes the
     /// interleavings around the named points
     fine: bool,
+    /// this run's request tasks start only once the driver has parked (or ended) for the first time: a request
+    /// task that fails on its first turn otherwise nearly always beats the driver's first poll (swarm style)
+    late: bool,
 }
 thread_local! {
     static ME: RefCell<Option<(usize, Arc<Sched>)>> = const { RefCell::new(None) };
@@ -132,6 +135,16 @@ enum Kind {
     Truncated,
     BadQpack,
     DropSender,
+    /// the transport reports a connection-level error on the request stream first (the connection-level calls
+    /// the driver makes report nothing): only the wake-up through the shared state can reach the driver
+    QuicConn,
+}
+fn drawn_stream_fault() -> net::ConnFault {
+    match draw(4) {
+        0 | 1 => net::ConnFault::Internal("simulated transport-internal error".into()),
+        2 => net::ConnFault::AppClose(0x101),
+        _ => net::ConnFault::Timeout,
+    }
 }
 #[derive(Default, Debug, Clone)]
 struct Rec {
@@ -173,7 +186,11 @@ fn conn_of(e: &h3::error::StreamError) -> Option<String> {
 fn one_run_client(ctx: &RunCtx) -> RunOut {
     HOOK.call_once(|| h3::verif::set_preempt_hook(hook));
     let ntasks = 1 + draw_usize(3);
-    let mut kinds: Vec<Kind> = (0..ntasks).map(|_| *pick(&[Kind::BadFrame, Kind::NoAuthority, Kind::Truncated, Kind::BadQpack])).collect();
+    let mut kinds: Vec<Kind> = (0..ntasks).map(|_| *pick(&[Kind::BadFrame, Kind::NoAuthority, Kind::Truncated, Kind::BadQpack, Kind::QuicConn])).collect();
+    let faults: Vec<net::ConnFault> = (0..ntasks).map(|_| drawn_stream_fault()).collect();
+    if kinds.contains(&Kind::QuicConn) {
+        obs::count("probe.connection_error_reported_on_a_request_stream_first");
+    }
     if ntasks == 1 && draw(4) == 3 {
         kinds[0] = Kind::DropSender;
     }
@@ -241,7 +258,7 @@ fn one_run_client(ctx: &RunCtx) -> RunOut {
         }
     }
     let nthreads = 1 + ntasks;
-    let s = Arc::new(Sched { m: Mutex::new(Inner { current: None, st: vec![St::Runnable; nthreads], trace: vec![], abort: false }), cv: Condvar::new(), fine: draw(2) == 1 });
+    let s = Arc::new(Sched { m: Mutex::new(Inner { current: None, st: vec![St::Runnable; nthreads], trace: vec![], abort: false }), cv: Condvar::new(), fine: draw(2) == 1, late: draw(3) == 2 });
     let rec: Arc<Mutex<Rec>> = Default::default();
     let keep: Keep = Default::default();
     let mut joins = vec![];
@@ -280,6 +297,7 @@ fn one_run_client(ctx: &RunCtx) -> RunOut {
         let rec = rec.clone();
         let net = net.clone();
         let kind = *kind;
+        let fault = faults[t].clone();
         let keep = keep.clone();
         let mut sr = send_request.clone();
         joins.push(std::thread::spawn(move || {
@@ -311,13 +329,17 @@ fn one_run_client(ctx: &RunCtx) -> RunOut {
                                     {
                                         // the peer answers with something that raises a connection error
                                         let mut n = net.lock().unwrap();
-                                        let bytes: Vec<u8> = match kind {
-                                            Kind::BadFrame => frames::frame(frames::CANCEL_PUSH, &[0x00]),
-                                            Kind::Truncated => vec![0x01, 0x0a, 0x00, 0x00, 0xd1],
-                                            _ => frames::frame(frames::HEADERS, &[0x05, 0x00, 0x80]),
-                                        };
-                                        n.raw_write(sid, SERVER, &bytes);
-                                        n.raw_fin(sid, SERVER);
+                                        if kind == Kind::QuicConn {
+                                            n.raw_stream_conn_error(sid, SERVER, fault.clone());
+                                        } else {
+                                            let bytes: Vec<u8> = match kind {
+                                                Kind::BadFrame => frames::frame(frames::CANCEL_PUSH, &[0x00]),
+                                                Kind::Truncated => vec![0x01, 0x0a, 0x00, 0x00, 0xd1],
+                                                _ => frames::frame(frames::HEADERS, &[0x05, 0x00, 0x80]),
+                                            };
+                                            n.raw_write(sid, SERVER, &bytes);
+                                            n.raw_fin(sid, SERVER);
+                                        }
                                     }
                                     let _ = block_on(id, &st, stream.finish());
                                     if let Some(r) = block_on(id, &st, stream.recv_response()) {
@@ -393,7 +415,8 @@ fn schedule_and_judge(ctx: &RunCtx, s: &Arc<Sched>, rec: &Arc<Mutex<Rec>>, net: 
             while g.current.is_some() {
                 g = s.cv.wait(g).unwrap();
             }
-            (0..g.st.len()).filter(|&i| matches!(g.st[i], St::Runnable | St::Woken)).collect()
+            let driver_settled = !s.late || matches!(g.st[0], St::Parked | St::Done) || g.trace.iter().any(|(t, w)| *t == 0 && *w == "park");
+            (0..g.st.len()).filter(|&i| matches!(g.st[i], St::Runnable | St::Woken) && (i == 0 || driver_settled)).collect()
         };
         let nev = world.count_enabled();
         let total = elig.len() + nev;
@@ -479,8 +502,10 @@ fn schedule_and_judge(ctx: &RunCtx, s: &Arc<Sched>, rec: &Arc<Mutex<Rec>>, net: 
                 return mk("C05.closed_with_different_codes", format!("close calls {:?}", names));
             }
         } else {
-            // transport-origin error: h3 must not close with another code
-            if !closes.is_empty() {
+            // transport-origin error: h3 must not close with another code (an error the transport calls internal
+            // is answered with H3_INTERNAL_ERROR; that is h3's documented handling, admitted here)
+            let internal = out == "RemoteInternal" && closes.iter().all(|c| *c == 0x102);
+            if !closes.is_empty() && !internal {
                 return mk("C05.close_on_remote_error", format!("the outcome is {out} but h3 closed with {:?}", closes.iter().map(|c| code_name(*c)).collect::<Vec<_>>()));
             }
         }
@@ -499,6 +524,13 @@ fn schedule_and_judge(ctx: &RunCtx, s: &Arc<Sched>, rec: &Arc<Mutex<Rec>>, net: 
         } else if in_window && *w == "conn_error.stored_before_wake" {
             obs::count("probe.error_stored_inside_check_register_window");
             break;
+        }
+    }
+    if kinds.contains("QuicConn") && !["Bad", "Trunc", "NoAuth", "Drop"].iter().any(|k| kinds.contains(k)) && (driver_side == 0 || driver_side == 3) {
+        // nothing but the wake-up through the shared state can have told the driver
+        obs::count("probe.only_the_shared_state_wakeup_could_reach_the_driver");
+        if trace.iter().any(|(t, w)| *t == 0 && *w == "park") {
+            obs::count("probe.driver_was_parked_when_only_the_wakeup_could_reach_it");
         }
     }
     if driver_side == 1 {
@@ -563,7 +595,10 @@ impl<T> Slot<T> {
 fn one_run_server(ctx: &RunCtx) -> RunOut {
     HOOK.call_once(|| h3::verif::set_preempt_hook(hook));
     let ntasks = 1 + draw_usize(3);
-    let kinds: Vec<Kind> = (0..ntasks).map(|_| *pick(&[Kind::BadFrame, Kind::Truncated, Kind::BadQpack])).collect();
+    let kinds: Vec<Kind> = (0..ntasks).map(|_| *pick(&[Kind::BadFrame, Kind::Truncated, Kind::BadQpack, Kind::QuicConn])).collect();
+    if kinds.contains(&Kind::QuicConn) {
+        obs::count("probe.connection_error_reported_on_a_request_stream_first");
+    }
     let driver_side = draw(4); // 0 nothing, 1 second control stream, 2 peer closes with an application code, 3 nothing
     let peer_close_code = *pick(&[0x101u64, 0x100, 0x10c]);
     let net = Net::new(NetCfg::default());
@@ -576,11 +611,16 @@ fn one_run_server(ctx: &RunCtx) -> RunOut {
             let req = headers_frame(&request_fields("POST", "/c05"));
             let bytes: Vec<u8> = match kind {
                 Kind::BadFrame => [req, frames::frame(frames::CANCEL_PUSH, &[0x00])].concat(),
-                Kind::Truncated => [req, vec![0x00, 0x0a, b'a']].concat(),
+                Kind::Truncated | Kind::QuicConn => [req, vec![0x00, 0x0a, b'a']].concat(),
                 _ => frames::frame(frames::HEADERS, &[0x05, 0x00, 0x80]),
             };
             n.raw_write(sid, CLIENT, &bytes);
-            n.raw_fin(sid, CLIENT);
+            if *kind == Kind::QuicConn {
+                // the stream stays open; once its bytes have been read the transport reports the error on it
+                n.raw_stream_conn_error(sid, CLIENT, drawn_stream_fault());
+            } else {
+                n.raw_fin(sid, CLIENT);
+            }
             sids.push(sid);
         }
     }
@@ -654,7 +694,7 @@ fn one_run_server(ctx: &RunCtx) -> RunOut {
         }
     }
     let nthreads = 1 + ntasks;
-    let s = Arc::new(Sched { m: Mutex::new(Inner { current: None, st: vec![St::Runnable; nthreads], trace: vec![], abort: false }), cv: Condvar::new(), fine: draw(2) == 1 });
+    let s = Arc::new(Sched { m: Mutex::new(Inner { current: None, st: vec![St::Runnable; nthreads], trace: vec![], abort: false }), cv: Condvar::new(), fine: draw(2) == 1, late: draw(3) == 2 });
     let rec: Arc<Mutex<Rec>> = Default::default();
     let keep: Keep = Default::default();
     let mut joins = vec![];
